@@ -29,6 +29,21 @@ def run(ctx):
     meths = m.methods('UnicodeToLatexEncoder')
     rules(ctx, repo, m, meths)
     ctx.assume('rule callables and regular expressions supplied by the user are outside the rule')
+    # ---- R04o: the result is the accumulated output object on every path
+    ctx.rule('R04o', 'unicode_to_latex() returns the accumulated output (the latex_string_class instance it filled) on every '
+                     'path: no shortcut hands back the input or another type', 1)
+    u2l_ = meths.get('unicode_to_latex')
+    accs_ = {unparse(x.targets[0]) for x in iter_own(u2l_) if isinstance(x, ast.Assign) and isinstance(x.value, ast.Call)
+             and unparse(x.value.func).endswith('latex_string_class')} if u2l_ is not None else set()
+    rets_ = [r_ for r_ in iter_own(u2l_) if isinstance(r_, ast.Return)] if u2l_ is not None else []
+    badr_ = [r_ for r_ in rets_ if r_.value is None or unparse(r_.value) not in accs_]
+    ctx.decide('R04o', bool(rets_) and bool(accs_) and not badr_, m, badr_[0] if badr_ else u2l_,
+               'every return of unicode_to_latex returns %s' % sorted(accs_),
+               'unicode_to_latex returns %s on one path, not the output object %s it accumulates: that result has another '
+               'type (a plain str instead of latex_string_class) and skipped the documented processing, so encoding a '
+               'concatenation no longer equals concatenating the encodings'
+               % (short(badr_[0].value, 40) if badr_ and badr_[0].value is not None else 'nothing', sorted(accs_)),
+               construct='unicode_to_latex: result object')
     # ---- R04m (C13 R13h); the module-state rule of C09 is R04g above
     ctx.rule('R04m', 'nothing on the unknown-character path can raise except the fail policy: no library call that is '
                      'partial on characters (unicodedata.name without default) (C13 R13h)', 1)
